@@ -219,6 +219,19 @@ def gen_case(rng, exact=False, force_order=None, force_n=None):
                 if not strictly_increasing(ks):
                     ks = gen_dyadic_knots(rng, o, extra)
                 knots.append(ks)
+    # far from the origin: the convolved axis (or every axis) is an exact translate by 2^e of a dyadic knot vector, e.g. a time axis in
+    # seconds since some epoch. The translate is exactly representable, so the convolved table must be the exact translate as well.
+    if rng.chance(0.25 if exact else 0.15):
+        e = rng.choice([20, 24, 27, 29, 30, 31, 33, 36, 40])
+        sign = rng.choice([1.0, 1.0, -1.0])
+        for d in range(ndim):
+            if d == dim or rng.chance(0.3):
+                base = gen_dyadic_knots(rng, orders[d], max(0, len(knots[d]) - 2 * orders[d] - 2), maxstep=rng.choice([1, 4, 12]))
+                if len(base) != len(knots[d]):
+                    continue
+                sh = [x + sign * 2.0 ** e for x in base]
+                if all((y - sign * 2.0 ** e) == x for x, y in zip(base, sh)) and strictly_increasing(sh):
+                    knots[d] = sh
     nco = 1
     for k, o in zip(knots, orders):
         nco *= len(k) - o - 1
